@@ -924,6 +924,9 @@ class FnSpec:
         self.loopends = {}
         self.shape = []
         self.cut = None
+        self.block = None      # X15: (start snippet, end snippet)
+        self.sig = None        # X15: signature given by the template
+        self.tail = None       # X15: result expression after the block
         self.opts = []
         self.bodystart = []
         self.bodyend = []
@@ -984,6 +987,19 @@ def parse_template(tpath):
                 # a snippet the body must contain for the in-body proof script to apply
                 m = re.match(r"`(.*)`$", d[6:].strip())
                 cur_fn.shape.append(m.group(1).replace("\\n", "\n"))
+                cur_block = None
+            elif d.startswith("block "):
+                # X15: only the statements from the one starting with the first snippet through the one
+                # ending with the second snippet are extracted, as the body of a function whose
+                # signature (the block's free variables) is given by the template
+                m = re.match(r"`(.*)`\s+`(.*)`$", d[6:].strip())
+                cur_fn.block = (m.group(1).replace("\\n", "\n"), m.group(2).replace("\\n", "\n"))
+                cur_block = None
+            elif d.startswith("sig "):
+                cur_fn.sig = d[4:].strip()
+                cur_block = None
+            elif d.startswith("tail "):
+                cur_fn.tail = d[5:].strip()
                 cur_block = None
             elif d.startswith("cut "):
                 # X14: the body is extracted up to (excluding) the statement that starts with the
@@ -1171,7 +1187,10 @@ class Extractor:
             for fs in use.fns:
                 it, _ = fs._found
                 ident = "%s::<%s>::%s" % (use.path, header, fs.name)
-                self.do_fn(use.path, src, it[2], it[3], fs, ident)
+                if fs.block:
+                    self.do_block(use.path, src, it[2], it[3], fs, ident)
+                else:
+                    self.do_fn(use.path, src, it[2], it[3], fs, ident)
             self.emit("}\n", self.tpath, use.tline)
         elif kind == "fn":
             (k, name, start, end, kw) = cands[0]
@@ -1193,6 +1212,50 @@ class Extractor:
             self.emit_block(use.top.attr)
             line = src.count("\n", 0, start) + 1
             self.emit(text + "\n", use.path, line)
+
+    def do_block(self, rel, src, start, end, fs, ident):
+        """X15: a block of statements of a function that is itself outside the subset, extracted as a
+        function.  Signature and result expression come from the template; the statements are the
+        function's own text (after the usual rewrites)."""
+        orig = src[start:end]
+        m = re.search(r"\bfn\s+([A-Za-z_][A-Za-z0-9_]*)", fs.sig)
+        if not m:
+            raise SystemExit("//@block without a usable //@sig")
+        ident = ident.rsplit("::", 1)[0] + "::" + m.group(1)
+        k1 = orig.find(fs.block[0])
+        if k1 < 0:
+            raise AnchorLost("%s: block start `%s` not found" % (ident, fs.block[0]))
+        k2 = orig.find(fs.block[1], k1)
+        if k2 < 0:
+            raise AnchorLost("%s: block end `%s` not found after the block start" % (ident, fs.block[1]))
+        k2 += len(fs.block[1])
+        seg = orig[k1:k2]
+        segm = mask_source(seg)
+        depth = 0
+        for ch in segm:
+            depth += (ch in "([{") - (ch in ")]}")
+            if depth < 0:
+                break
+        if depth != 0:
+            raise AnchorLost("%s: the block between the two snippets is not balanced" % ident)
+        self.hashes[ident] = hashlib.sha256(seg.encode()).hexdigest()
+        text = self.apply_rewrites(seg, fs.opts, ident)
+        line0 = src.count("\n", 0, start + k1) + 1
+        self.log.setdefault(ident, set()).add("X15:block(%d lines of %s, as `%s`; everything else of the function is dropped)" % (seg.count("\n") + 1, fs.name, m.group(1)))
+        self._fn_marks.append([ident, len(self.pieces), None])
+        self.emit_block(fs.attr)
+        self.functions.append(ident)
+        self.emit(fs.sig + "\n", self.tpath, fs.tline)
+        self.emit_block(fs.contract)
+        self.emit("{\n", self.tpath, fs.tline)
+        if self.vacuity and any(re.match(r"\s*requires\b", raw) for (raw, tl) in fs.contract):
+            self.emit("        proof { assert(false); } // VACUITY-PROBE\n", self.tpath, fs.tline)
+            self.probed.append(ident)
+        if fs.bodystart:
+            self.emit_block(fs.bodystart)
+        self.emit(text + "\n", rel, line0)
+        self.emit((fs.tail or "") + "\n}\n", self.tpath, fs.tline)
+        self._fn_marks[-1][2] = len(self.pieces)
 
     def do_fn(self, rel, src, start, end, fs, ident):
         orig = src[start:end]
